@@ -114,6 +114,10 @@ impl SubCheck for ModuleLevel {
 						let x = &mut insts[i];
 						match &ack {
 							Some(Ack::Accepted(id)) => {
+								if x.abandoned {
+									// the subscribe call is gone: nobody can be told the id, so nobody could ever unsubscribe
+									obs.fail("c06m/accept-succeeded-for-a-given-up-subscribe-call", format!("step #{k} {step:?}: accept() returned a live sink with id {id} although the subscribe call had been given up; case={case:?}"));
+								}
 								x.accepted = true;
 								x.sinks_live = 1;
 								x.sub_id = Some(id.clone());
